@@ -11,7 +11,7 @@ ASSUMPTIONS = ["bytearray cells are integers 0..255 (enforced on every store, as
 
 
 def jobs(tier):
-    return [dict(j, second_solver=(6 if tier == "thorough" and j["args"][0] <= 12 else 0)) for j in _jobs(tier)]
+    return [dict(j, second_solver=(6 if tier == "thorough" and j["args"][-1] <= 12 else 0)) for j in _jobs(tier)]
 
 
 def _jobs(tier):
@@ -25,4 +25,7 @@ def _jobs(tier):
                        expect=["length preserved"] + ([] if L == 0 else ["decode: out[L-1-i] == O-str(in[i])"])))
         js.append(dict(name=f"inverse[{L}]", fn="inverse", args=[L], collect_models=1,
                        expect=["length preserved"] + ([] if L == 0 else ["decode(encode(x))[i] == x[i] unless 0x7E"])))
+    for L0, L in (((1, 1), (2, 3), (3, 2), (4, 4)) if tier == "quick" else [(a, b) for a in range(0, 7) for b in range(0, 7)] + [(33, 33), (64, 65)]):
+        js.append(dict(name=f"after_earlier_calls[{L0},{L}]", fn="after_earlier_calls", args=[L0, L], collect_models=1,
+                       expect=["after earlier calls: length preserved"]))
     return js
